@@ -8,6 +8,7 @@ import (
 	"strings"
 	"sync"
 	"time"
+	"tkestack.io/galaxy/pkg/api/k8s/schedulerapi"
 
 	corev1 "k8s.io/api/core/v1"
 	"tkestack.io/galaxy/pkg/ipam/api"
@@ -681,6 +682,23 @@ func roundMix(seed int64, idx int) *Round {
 			return fmt.Sprint(code)
 		})
 		r.W.SyncPoolsFromTruth()
+	})
+	bg(16, "preempt", 6, func(brng *rand.Rand) {
+		// the scheduler's preemption call for a pod (any pod: pods with the default policy return at once, the others
+		// go through getSubnet and the node-subnet cache like a filter)
+		pods := r.W.ListPods()
+		if len(pods) == 0 {
+			return
+		}
+		p := pods[brng.Intn(len(pods))]
+		victims := map[string]*schedulerapi.MetaVictims{}
+		for _, n := range r.nodes() {
+			victims[n.Name] = &schedulerapi.MetaVictims{}
+		}
+		r.do(16, "preempt", p.Name, func() string {
+			left := r.W.Plugin.Preempt(&schedulerapi.ExtenderPreemptionArgs{Pod: p, NodeNameToMetaVictims: victims})
+			return fmt.Sprint(len(left))
+		})
 	})
 	bg(15, "reload", 3, func(brng *rand.Rand) {
 		// same configuration text with a harmless difference (whitespace) so that the reload really runs
